@@ -291,11 +291,19 @@ def fmt(ctx: Ctx) -> List[Ob]:
         recs = find(f"{nm}[{iv}] = $$n", lp)
         adds_ = [c for c in ast.walk(lp) if isinstance(c, ast.Call) and isinstance(c.func, ast.Attribute) and c.func.attr in ("add", "add_child", "append_child")]
         okr = None
-        if len(recs) == 1 and adds_:
-            # whatever reaches the recording statement was created by an add() of this round
-            vals = reaching_values(ctx, r, recs[0][0], recs[0][1]["$$n"])
-            okr = len(vals) == len(adds_) and all(any(v_ is c for c in adds_) for v_ in vals) and not path_conds(ctx, r, recs[0][0])[0:0] and not [
-                a_ for a_, p_ in path_conds(ctx, r, recs[0][0]) if _in(getattr(a_, "_orig", a_), lp)]
+        if recs and adds_:
+            # whatever reaches a recording statement was created by an add() of this round, and every add() is recorded
+            # (one common recording statement, or one per branch)
+            seen_ = []
+            okr = True
+            for rn_, re_ in recs:
+                vals = reaching_values(ctx, r, rn_, re_["$$n"])
+                if not vals or not all(any(v_ is c for c in adds_) for v_ in vals):
+                    okr = False
+                seen_ += [v_ for v_ in vals]
+            okr = okr and all(any(v_ is c for v_ in seen_) for c in adds_)
+            if len(recs) == 1:
+                okr = okr and not [a_ for a_, p_ in path_conds(ctx, r, recs[0][0]) if _in(getattr(a_, "_orig", a_), lp)]
         elif not recs:
             okr = False
         O(["C12", "C05"], r, "every created node is recorded under its entry index: the one created for this entry (str, clone reference and dict entries)", okr,
@@ -634,15 +642,19 @@ def fmt(ctx: Ctx) -> List[Ob]:
         adds = [c for c in ast.walk(lp) if isinstance(c, ast.Call) and isinstance(c.func, ast.Attribute) and c.func.attr in ("append_child", "add_child", "add")
                 and norm(c.func.value) == "self"]
         recs = [c for c in ast.walk(lp) if isinstance(c, ast.Call) and isinstance(c.func, ast.Attribute) and c.func.attr == "from_dict"]
-        if len(adds) == 1 and len(recs) == 1:
-            kw = {k.arg: RN(fd, adds[0], k.value) for k in adds[0].keywords}
-            ok = kw.get("data_id") == f"{iv}.get('data_id')" and "before" not in kw and any(k.arg == "mapper" and norm(k.value) == "mapper" for k in recs[0].keywords)
+        if adds and len(recs) == 1:
+            # (one append per item; the canonical form may hold one call per mapper/no-mapper branch)
+            ok = any(k.arg == "mapper" and norm(k.value) == "mapper" for k in recs[0].keywords)
+            for ad in adds:
+                kw = {k.arg: RN(fd, ad, k.value) for k in ad.keywords}
+                ok = ok and kw.get("data_id") == f"{iv}.get('data_id')" and "before" not in kw
             # data_id is read after the mapper ran
             mcs = [c for c in ast.walk(lp) if isinstance(c, ast.Call) and norm(c.func) == "call_mapper"]
             gets = [x for x in ast.walk(lp) if isinstance(x, ast.Call) and norm(x) == f"{iv}.get('data_id')"]
             ok = ok and all(not_after(ctx, fd, mc_, g_) for mc_ in mcs for g_ in gets)
             # the recursion runs on the child just created, with the item's children
-            ok = ok and any(v_ is adds[0] for v_ in reaching_values(ctx, fd, recs[0], recs[0].func.value)) and bool(recs[0].args) \
+            rv_ = reaching_values(ctx, fd, recs[0], recs[0].func.value)
+            ok = ok and bool(rv_) and all(any(v_ is ad for ad in adds) for v_ in rv_) and len(rv_) == len(adds) and bool(recs[0].args) \
                 and RN(fd, recs[0], recs[0].args[0]) in (f"{iv}.get('children')", f"{iv}['children']")
     pops = [c for c in ast.walk(fd.node) if isinstance(c, ast.Call) and isinstance(c.func, ast.Attribute) and c.func.attr in ("pop", "popitem", "clear", "update", "setdefault")
             and norm(c.func.value) in ([norm(lps[0].target)] if lps else [])]
